@@ -9,8 +9,9 @@
        intermediary segment"
    §5  table level: number of entries, byte total, baseline
    §2  witnesses: literal histories on which something IS pending (by `decide`)
-   §3  source level: whole histories of the TRANSLATED `Decoder::decode`; and the NEGATIVE result for
-       buffers of 2^31 + 8 bytes and more (the translated source keeps an entry the model erases)
+   §3  source level: whole histories of the TRANSLATED `Decoder::decode`, buffers of ANY length (`huge_frame_released`:
+       a frame of 2^31 + 8 bytes and more releases the endpoint's pending entry like any other frame; while the
+       remaining size was an `int` the source kept the entry the model erases)
    §4  TECMP / null / short buffers leave the table literally untouched (concrete TECMP decoder)
 -/
 import AsamCmp.Props.C17
@@ -660,20 +661,19 @@ structure MemBuf where
   b : Bytes
   post : Bytes
 
-/-- what the machine imposes on one call: non-null pointer, `size` below 2^31 (the range in which
-    `static_cast<int>(size - 8)` is the true remaining size), memory within the address space, and
-    enough fuel for the translated loops -/
+/-- what the machine imposes on one call: non-null pointer, memory within the address space, and
+    enough fuel for the translated loops.  No bound on `size` itself: the remaining size is a `std::size_t` -/
 def MemBuf.Fits (fuel : Nat) (x : MemBuf) : Prop :=
-  0 < x.pre.length ∧ x.b.length < 2 ^ 31 ∧ (x.pre ++ x.b ++ x.post).length < 2 ^ 63 ∧ x.b.length ≤ fuel
+  0 < x.pre.length ∧ (x.pre ++ x.b ++ x.post).length < 2 ^ 63 ∧ x.b.length ≤ fuel
 
 /-- ONE call of the translated `Decoder::decode` (translated TECMP decoder plugged in) on ANY
-    non-null buffer below 2^31 bytes — short, TECMP or CMP frame: defined, and the member it leaves
+    non-null buffer, of any length — short, TECMP or CMP frame: defined, and the member it leaves
     is literally the image of the low-level model's table -/
 theorem decode_src_any (t : Table) (x : MemBuf) (fuel : Nat) (hT : TableOk t) (hR : TableReg t) (hx : x.Fits fuel) :
     ∃ outs, Decoder_decode_obj fuel (tblSt t) (x.pre ++ x.b ++ x.post) x.pre.length x.b.length (SrcTec.tecmpExt fuel) =
         some (tblSt (decodeLL t (some x.b)).1, outs) ∧
       outs.map (Sum.elim toPacket SrcTec.tAbs) = (decodeLL t (some x.b)).2 := by
-  obtain ⟨hpre, hlen, hmem, hf⟩ := hx
+  obtain ⟨hpre, hmem, hf⟩ := hx
   by_cases h8 : x.b.length < 8
   · have hm : decodeLL t (some x.b) = (t, []) := by simp only [decodeLL, h8, if_true]
     rw [hm]
@@ -683,7 +683,7 @@ theorem decode_src_any (t : Table) (x : MemBuf) (fuel : Nat) (hT : TableOk t) (h
     · obtain ⟨hsrc, hmap⟩ := SrcTec.decode_tecmp_src (tblSt t) x.pre x.b x.post fuel toPacket hpre h8' h0 (by omega) hf
       rw [decodeLL_tecmp t x.b h8' h0]
       exact ⟨_, hsrc, hmap⟩
-    · obtain ⟨outs, h1, h2⟩ := decode_src t x.pre x.b x.post fuel (SrcTec.tecmpExt fuel) hT hR hpre h8' h0 hlen hmem hf
+    · obtain ⟨outs, h1, h2⟩ := decode_src t x.pre x.b x.post fuel (SrcTec.tecmpExt fuel) hT hR hpre h8' h0 hmem hf
       refine ⟨_, h1, ?_⟩
       rw [List.map_map, ← h2]
       rfl
@@ -722,7 +722,7 @@ theorem runSrc_from (fuel : Nat) : ∀ (xs : List MemBuf) (t : Table) (B : Nat),
     · simp only [List.map_append, h2, i2, List.map_cons, runLL]
 
 /-- **K1 at the level of the TRANSLATED SOURCE (finding 3), partial.**  Any history of calls of the
-    translated `Decoder::decode` on a fresh decoder object, every buffer non-null, below 2^31 bytes and
+    translated `Decoder::decode` on a fresh decoder object, every buffer non-null, of any length,
     inside the address space: every call is defined, the member `segmentedPackets` after the history
     is literally the image of the low-level model's table `runLL [] …` — about which `table_total`,
     `table_entries`, `C17_bytes` speak — and the packets are the model's.
@@ -738,8 +738,8 @@ theorem runSrc_refines_partial (fuel : Nat) (xs : List MemBuf) (hfit : ∀ x ∈
 
 
 /-- **C17 for the member of the translated source, in the hook's terms — partial** (same extra
-    hypothesis as `runSrc_refines_partial`).  After any history of calls (buffers non-null, below 2^31
-    bytes): `segmentedPackets` has an entry for exactly the endpoints whose message is in progress,
+    hypothesis as `runSrc_refines_partial`).  After any history of calls (buffers non-null, of any
+    length): `segmentedPackets` has an entry for exactly the endpoints whose message is in progress,
     one each; every entry's `payload` holds exactly 16 + the declared bytes of its open message; and
     if no message is open the member is literally empty. -/
 theorem runSrc_pending_exact_partial (fuel : Nat) (xs : List MemBuf) (hfit : ∀ x ∈ xs, x.Fits fuel)
@@ -765,48 +765,6 @@ theorem runSrc_pending_exact_partial (fuel : Nat) (xs : List MemBuf) (hfit : ∀
     exact hbytes y hy
   · intro hi
     simp only [tblSt, hidle hi, List.map_nil]
-
-/-! ### buffers of 2^31 + 8 bytes and more: `int curSize` is negative -/
-
-theorem slt_zero_neg (x : Nat) (h1 : 2 ^ 31 ≤ x) (h2 : x < 2 ^ 32) : slt 32 0 x = false := by
-  unfold slt toInt
-  have a : (0:Nat) < 2 ^ (32 - 1) := by decide
-  have b : ¬ x < 2 ^ (32 - 1) := by
-    have : (2:Nat) ^ (32 - 1) = 2 ^ 31 := by decide
-    omega
-  rw [if_pos a, if_neg b]
-  have : (2:Nat)^32 = 4294967296 := by decide
-  rw [this]
-  simp only [decide_eq_false_iff_not]
-  omega
-
-/-- the translated `Decoder::decode` on a CMP frame whose SIZE is between 2^31 + 8 and 2^32 + 7:
-    `int curSize = static_cast<int>(size - sizeof(CmpHeader))` is negative, so neither the
-    header-only `erase` nor the message loop runs: the call returns no packets and leaves the
-    pending table EXACTLY as it was -/
-theorem decode_src_huge {F : Type} (s : Decoder_St) (pre b post : Bytes) (fuel : Nat) (ext : Bytes → Nat → Nat → List F)
-    (hpre : 0 < pre.length) (h0 : byteAt b 0 ≠ 0) (hlo : 2 ^ 31 + 8 ≤ b.length) (hhi : b.length < 2 ^ 32 + 8)
-    (hf : 0 < fuel) :
-    Decoder_decode_obj fuel s (pre ++ b ++ post) pre.length b.length ext = some (s, []) := by
-  have h8 : 8 ≤ b.length := by omega
-  have hpre0 : (pre.length == 0) = false := by simpa using Nat.ne_of_gt hpre
-  have hb0 : (byteAt b 0 == 0) = false := by simpa using h0
-  have hlt8 : ¬ b.length < 8 := by omega
-  have hrd : Src.rd (pre ++ b ++ post) pre.length 1 = some (byteAt b 0) := by
-    rw [SrcTie.rd_mid0 pre b post 1 (by omega), SrcTie.leAt_one]
-  have hcur : usub 64 b.length 8 % 4294967296 = b.length - 8 := by
-    rw [SrcTie.usub_eq _ _ h8 (by omega)]; exact Nat.mod_eq_of_lt (by omega)
-  have hne : ((b.length - 8) == 0) = false := by
-    have : b.length - 8 ≠ 0 := by omega
-    simpa using this
-  have hneg := slt_zero_neg (b.length - 8) (by omega) (by omega)
-  obtain ⟨fuel', rfl⟩ : ∃ k, fuel = k + 1 := ⟨fuel - 1, by omega⟩
-  unfold Decoder_decode_obj
-  simp only [hpre0, Bool.false_eq_true, if_false, hlt8, decide_false, bind, pure, hrd, SrcTie.some_bind, hb0,
-    getDeviceId_mid pre b post h8, getStreamId_mid pre b post h8, nonneg_one, hcur, hne]
-  unfold Decoder_decode_loop1
-  simp only [hneg, Bool.false_eq_true, if_false, pure, SrcTie.some_bind]
-
 
 /-! ## §2 witnesses -/
 
@@ -884,15 +842,20 @@ theorem runSrc_cons (fuel : Nat) (s s' s'' : Decoder_St) (x : MemBuf) (xs : List
     (h2 : runSrc fuel s' xs = some (s'', o')) : runSrc fuel s (x :: xs) = some (s'', o ++ o') := by
   simp only [runSrc, h1, h2]
 
-theorem huge_frame_violation_gen (n : Nat) (hlo : 2 ^ 31 ≤ n) (hhi : n < 2 ^ 32) :
+/-- the TRANSLATED source on that history, for EVERY size `8 + n` of the second frame (`n ≥ 1` message bytes; the memory
+    `[9] ++ hugeBuf n` must fit the address space): both calls are defined, nothing is in progress on the endpoint by the
+    specification automaton, the model's table is empty, and the member the translated `Decoder::decode` leaves is
+    literally EMPTY — the first segment's 18 bytes are released, no packet is delivered -/
+theorem huge_frame_released_gen (n : Nat) (hn : 0 < n) (hmem : n + 9 < 2 ^ 63) :
     openAfter (framesAt ((hugeHist n).map fun x => some x.b) (0x0102, 7)) = none ∧
     (runLL [] ((hugeHist n).map fun x => some x.b)).1 = [] ∧
-    ∀ fuel, 29 ≤ fuel → ∃ outs, runSrc fuel (tblSt []) (hugeHist n) = some (tblSt [exEntry], outs) := by
-  have hmodel : (runLL [] ((hugeHist n).map fun x => some x.b)).1 = [] := by
-    show (runLL [] [some exFirst, some (hugeBuf n)]).1 = []
-    simp only [runLL, ex_first, decodeLL_huge [exEntry] n (by omega)]
+    ∀ fuel, 29 ≤ fuel → 8 + n ≤ fuel → ∃ outs, runSrc fuel (tblSt []) (hugeHist n) = some (tblSt [], outs) ∧
+      outs.map (Sum.elim toPacket SrcTec.tAbs) = [] := by
+  have hmodel : runLL [] ((hugeHist n).map fun x => some x.b) = ([], []) := by
+    show runLL [] [some exFirst, some (hugeBuf n)] = ([], [])
+    simp only [runLL, ex_first, decodeLL_huge [exEntry] n hn]
     decide
-  refine ⟨?_, hmodel, ?_⟩
+  refine ⟨?_, by rw [hmodel], ?_⟩
   · have h := keys_iff_open ((hugeHist n).map fun x => some x.b) (0x0102, 7)
     rw [hmodel] at h
     cases ho : openAfter (framesAt ((hugeHist n).map fun x => some x.b) (0x0102, 7)) with
@@ -901,36 +864,50 @@ theorem huge_frame_violation_gen (n : Nat) (hlo : 2 ^ 31 ≤ n) (hhi : n < 2 ^ 3
       rw [ho] at h
       have := h.mpr rfl
       cases this
-  · intro fuel hf
-    have hfit : (⟨[9], exFirst, []⟩ : MemBuf).Fits fuel := by
-      refine ⟨by decide, by decide, by decide, ?_⟩
-      show exFirst.length ≤ fuel
-      have : exFirst.length = 29 := by decide
+  · intro fuel hf1 hf2
+    have hfit : ∀ x ∈ hugeHist n, x.Fits fuel := by
+      intro x hx
+      simp only [hugeHist, List.mem_cons, List.not_mem_nil, or_false] at hx
+      rcases hx with rfl | rfl
+      · refine ⟨by decide, by decide, ?_⟩
+        show exFirst.length ≤ fuel
+        have : exFirst.length = 29 := by decide
+        omega
+      · refine ⟨Nat.zero_lt_one, ?_, ?_⟩
+        · show ([9] ++ hugeBuf n ++ []).length < 2 ^ 63
+          simp only [List.length_append, List.length_singleton, List.length_nil, hugeBuf_length]
+          omega
+        · show (hugeBuf n).length ≤ fuel
+          rw [hugeBuf_length]; exact hf2
+    have htot : totalBytes (hugeHist n) + 65552 < 2 ^ 64 := by
+      have : totalBytes (hugeHist n) = 29 + (8 + n) := by
+        simp only [totalBytes, hugeHist, List.map_cons, List.map_nil, List.sum_cons, List.sum_nil, hugeBuf_length]
+        have : exFirst.length = 29 := by decide
+        omega
       omega
-    obtain ⟨o1, h1, _⟩ := decode_src_any [] ⟨[9], exFirst, []⟩ fuel tableOk_empty tableReg_nil hfit
-    rw [ex_first] at h1
-    have h2 := decode_src_huge (tblSt [exEntry]) [9] (hugeBuf n) [] fuel (SrcTec.tecmpExt fuel) (by decide)
-      (by rw [hugeBuf_byte _ 0 (by decide)]; decide) (by rw [hugeBuf_length]; omega)
-      (by rw [hugeBuf_length]; omega) (by omega)
-    exact ⟨o1 ++ ([] ++ []), runSrc_cons fuel _ _ _ ⟨[9], exFirst, []⟩ _ _ _ h1
-      (runSrc_cons fuel _ _ _ ⟨[9], hugeBuf n, []⟩ [] _ _ h2 rfl)⟩
+    obtain ⟨outs, h1, h2⟩ := runSrc_refines_partial fuel (hugeHist n) hfit htot
+    rw [hmodel] at h1 h2
+    exact ⟨outs, h1, h2⟩
 
-/-- **NEGATIVE RESULT (finding 3): the translated source violates K2 on a frame of 2^31 + 8 bytes.**
+/-- **a frame of 2^31 + 8 bytes releases the endpoint's pending entry (finding 3, REPAIRED in the source).**
     History: a first segment opens a message on endpoint (0x0102, 7); then a frame of 2^31 + 8 bytes
     for the same endpoint arrives whose message bytes are invalid — a frame that neither opens nor
     continues anything.
     * By the property's text (specification automaton) nothing is in progress on that endpoint any
       more, and the MODEL's table is empty — which is what `C17_bytes` / `table_entries` claim.
-    * The TRANSLATED `Decoder::decode` (`int curSize = static_cast<int>(size - 8)` is −2^31: neither
-      the header-only `erase` nor the loop runs) is defined on both calls and STILL HOLDS the first
-      segment's 18 bytes for that endpoint.
-    So the model theorems, which are unconditional in the buffer size, over-claim for buffers of
-    2^31 + 8 … 2^32 + 7 bytes; `decode_total_src`'s hypothesis `b.length < 2^31` is necessary. -/
-theorem huge_frame_violation :
+    * The TRANSLATED `Decoder::decode` (`std::size_t curSize = size - 8` is 2^31: the loop runs, `isValidPacket`
+      rejects the message bytes, the endpoint's entry is erased) is defined on both calls and holds NOTHING afterwards.
+    While `curSize` was an `int` (−2^31 here: neither the header-only `erase` nor the loop ran) the translated source
+    still held the first segment's 18 bytes; the theorem in this place was the negative `huge_frame_violation`.
+    The frame is handled like any other: this is `runSrc_refines_partial` on this history (`huge_frame_released_gen`
+    for every size), and `decode_src_any` is the one-call statement for every table and every buffer. -/
+theorem huge_frame_released :
     openAfter (framesAt ((hugeHist (2 ^ 31)).map fun x => some x.b) (0x0102, 7)) = none ∧
     (runLL [] ((hugeHist (2 ^ 31)).map fun x => some x.b)).1 = [] ∧
-    ∀ fuel, 29 ≤ fuel → ∃ outs, runSrc fuel (tblSt []) (hugeHist (2 ^ 31)) = some (tblSt [exEntry], outs) :=
-  huge_frame_violation_gen (2 ^ 31) (Nat.le_refl _) (by omega)
+    ∀ fuel, 2 ^ 31 + 8 ≤ fuel → ∃ outs, runSrc fuel (tblSt []) (hugeHist (2 ^ 31)) = some (tblSt [], outs) ∧
+      outs.map (Sum.elim toPacket SrcTec.tAbs) = [] := by
+  obtain ⟨h1, h2, h3⟩ := huge_frame_released_gen (2 ^ 31) (by omega) (by omega)
+  exact ⟨h1, h2, fun fuel hf => h3 fuel (by omega) (by omega)⟩
 
 /-! ## §4  Buffers that are not capture-module frames -/
 
@@ -1091,11 +1068,14 @@ example : ∃ outs, runSrc 64 (tblSt []) [⟨[9], exFirst, [5]⟩, ⟨[9, 9], ex
     decide
   rw [this]
 
-/-- `decode_src_huge` evaluated: the translated source on a size of 2^31 + 8 with a pending entry
-    (only the 8 header bytes need to be in memory — nothing else is read) returns the table as is -/
-example : (Decoder_decode_obj 1 (tblSt [exEntry]) ([9] ++ hugeHdr) 1 (2 ^ 31 + 8) (SrcTec.tecmpExt 1)).map
+/-- the translated source evaluated on a small frame of the same shape (`hugeBuf 40`: 40 invalid message bytes) with the
+    pending entry: the entry is released.  (The call of `huge_frame_released` itself cannot be evaluated: it reads 2 GiB.) -/
+example : (Decoder_decode_obj 48 (tblSt [exEntry]) ([9] ++ hugeBuf 40) 1 48 (SrcTec.tecmpExt 48)).map
       (fun r => (r.1.f_segmentedPackets.map fun e => (e.1, e.2.f_payload.length, e.2.f_segmentType), r.2.length)) =
-    some ([((0x0102, 7), 18, 4)], 0) := by decide
+    some ([], 0) := by decide
+
+/-- `huge_frame_released_gen`: hypotheses satisfiable at both ends of the range the `int` mishandled -/
+example := huge_frame_released_gen (2 ^ 32 - 1) (by omega) (by omega)
 
 
 /-- `pending_last_frame`: its hypothesis holds on a literal history (evaluated through the table) -/
